@@ -138,6 +138,18 @@ def gen_case(rng):
         # equal residue names with different content: a second definition may reuse a name with other atom names
         resname = f'R{"ABCD"[k]}' if not (k > 0 and rng.random() < 0.25) else defs[-1]['resname']
         defs.append(gen_residue(rng, resname, 'abcdef'[k].upper() if rng.random() < 0.5 else 'XYZW'[k]))
+    # same residue name and atom names, other bond graph (an isomer): must get its own template
+    if rng.random() < 0.35:
+        base = rng.choice(defs)
+        nreal = len(base['atoms']) - (1 if base['vs'] else 0)
+        if nreal >= 3:
+            perm = list(range(nreal))
+            rng.shuffle(perm)
+            iso = {'resname': base['resname'], 'atoms': [dict(a) for a in base['atoms'][:nreal]], 'angles': [], 'vs': None,
+                   'bonds': [(min(perm[i], perm[j]), max(perm[i], perm[j]), l) for i, j, l in base['bonds']]}
+            if not same_labelled_graph(iso, base):
+                defs.append(iso)
+                ndef += 1
     moltypes = []
     for m in range(rng.randint(1, 3)):
         moltypes.append((f'M{"ABC"[m]}', [rng.randrange(ndef) for _ in range(rng.randint(1, 4))]))
@@ -152,6 +164,20 @@ def gen_case(rng):
         if tmpl is not None:
             build['coords'] = [[round(rng.uniform(-0.5, 0.5), 3) for _ in range(3)] for _ in defs[tmpl]['atoms']]
     return {'defs': defs, 'moltypes': moltypes, 'build': build}
+
+
+def labelled_graph(res):
+    import networkx as nx
+    g = nx.Graph()
+    for k, a in enumerate(res['atoms']):
+        g.add_node(k, atomname=a['name'])
+    g.add_edges_from((i, j) for i, j, _ in res['bonds'])
+    return g
+
+
+def same_labelled_graph(r1, r2):
+    import networkx as nx
+    return nx.is_isomorphic(labelled_graph(r1), labelled_graph(r2), node_match=lambda a, b: a['atomname'] == b['atomname'])
 
 
 def vs_edges(res):
@@ -292,6 +318,9 @@ def judge(case, out):
             if d1 < d2 and key_of[d1] == key_of[d2] and sorted(a['name'] for a in defs[d1]['atoms']) != sorted(a['name'] for a in defs[d2]['atoms']):
                 bad.append((f"residues with different atom names ({defs[d1]['resname']}: {[a['name'] for a in defs[d1]['atoms']]} / "
                             f"{defs[d2]['resname']}: {[a['name'] for a in defs[d2]['atoms']]}) share one template", None))
+            elif d1 < d2 and key_of[d1] == key_of[d2] and not same_labelled_graph(defs[d1], defs[d2]):
+                bad.append((f"residues {defs[d1]['resname']} with bonds {[(i, j) for i, j, _ in defs[d1]['bonds']]} and {defs[d2]['resname']} with bonds "
+                            f"{[(i, j) for i, j, _ in defs[d2]['bonds']]} over the same atom names are not isomorphic but share one template", None))
     b = case['build']
     failed_blocks = any('Failed to optimize' in m for m in out['log'])
     for d, h in key_of.items():
